@@ -22,11 +22,12 @@ pub struct RunOpts {
     pub record_merge: bool,
     pub fingerprints: bool,
     pub sort_knobs_override: Option<SortKnobs>,
+    pub continue_after_err: bool,
 }
 
 impl Default for RunOpts {
     fn default() -> RunOpts {
-        RunOpts { keep_io: false, record_merge: false, fingerprints: false, sort_knobs_override: None }
+        RunOpts { keep_io: false, record_merge: false, fingerprints: false, sort_knobs_override: None, continue_after_err: false }
     }
 }
 
@@ -60,6 +61,7 @@ pub fn run_case(case: &Case, plan: &EnvPlan, opts: &RunOpts) -> RunResult {
     env.0.borrow_mut().record_merge = opts.record_merge;
     let mut tx = Tx::new(env.clone());
     tx.keep_io = opts.keep_io;
+    tx.continue_after_err = opts.continue_after_err;
     let mut sort_obs = None;
     let mut setup_err = None;
     let mut files = Vec::new();
